@@ -422,6 +422,9 @@ type Violation struct {
 	Replay   any    `json:"replay,omitempty"`
 	Known    string `json:"known,omitempty"` // id of the matching known finding
 	Oracle   string `json:"oracle,omitempty"` // which oracle raised it: map, fsck, ledger, handles, reclaim, ...
+	// failing call of a concurrent execution (engine A): its record, or nil
+	// when the failing call is one of the quiescent final reads
+	failRec *callRec
 }
 
 func (v *Violation) Error() string {
